@@ -35,6 +35,8 @@ KINDS = {
     'asn2': {'peer_ip': '10.0.0.3', 'peer_as': 65003, 'asn4': False, 'addpath': False},
     'ibgp-ap': {'peer_ip': '10.0.0.4', 'peer_as': 65001, 'asn4': True, 'addpath': True},
     'asn4-aigp': {'peer_ip': '10.0.0.5', 'peer_as': 65005, 'asn4': True, 'addpath': False, 'aigp': True},
+    # a session from another local address: a next hop equal to the local address of one session is an ordinary one on the other
+    'asn4-b': {'peer_ip': '10.0.1.2', 'local_ip': '10.0.1.1', 'peer_as': 65006, 'asn4': True, 'addpath': False},
 }
 
 
@@ -67,6 +69,8 @@ def attr_blocks() -> list[bytes]:
         # with 4-byte AS numbers, malformed without), a 6-byte one (the other way round), AIGP (kept only where it was enabled)
         o + p2 + nh + agg4, o + p4 + nh + med + agg4, o + p4 + nh + agg2, o + p2 + nh + med + agg2,
         o + p4 + nh + aigp, o + p2 + nh + aigp, o + p4 + nh + med + aigp,
+        # next hops that are the local address of one of the sessions
+        o + p4 + R.attribute(R.A_NEXT_HOP, bytes([10, 0, 0, 1])), o + p4 + R.attribute(R.A_NEXT_HOP, bytes([10, 0, 1, 1])) + med,
     ]  # fmt: skip
 
 
@@ -146,7 +150,7 @@ def simulate(plan: dict, scripts: dict, seed_salt: int = 0) -> dict:
         kd = KINDS[k]
         confs.append(
             {
-                'peer_ip': kd['peer_ip'], 'local_ip': LOCAL, 'local_as': 65001, 'peer_as': kd['peer_as'], 'router_id': LOCAL, 'hold': 180,
+                'peer_ip': kd['peer_ip'], 'local_ip': kd.get('local_ip', LOCAL), 'local_as': 65001, 'peer_as': kd['peer_as'], 'router_id': LOCAL, 'hold': 180,
                 'families': [(1, 1), (2, 1)], 'adj-rib-in': True, 'caps': {'route-refresh': True, 'asn4': kd['asn4'], 'add-path': 'send/receive' if kd['addpath'] else 'disable', 'aigp': bool(kd.get('aigp'))},
                 'addpath_families': [(1, 1)] if kd['addpath'] else None,
                 'api': {'processes': ['h1'], 'receive': ['parsed', 'update', 'open'], 'send': ['parsed', 'open']},
@@ -158,7 +162,7 @@ def simulate(plan: dict, scripts: dict, seed_salt: int = 0) -> dict:
         caps = speaker_caps(spec)
         if k in ('asn2', 'ibgp-ap'):
             caps.append((128, b''))  # the pre-RFC (Cisco) route-refresh code: alone on one session, next to code 2 on another
-        speakers[k] = Speaker(w, k, kd['peer_ip'], kd['peer_as'], kd['peer_ip'], LOCAL, hold=180, caps=caps)
+        speakers[k] = Speaker(w, k, kd['peer_ip'], kd['peer_as'], kd['peer_ip'], kd.get('local_ip', LOCAL), hold=180, caps=caps)
         if plan.get('late') == k and len(scripts) > 1:
             # this session only comes up once the others have exchanged their OPENs
             speakers[k].accept_mode = 'refuse'
